@@ -922,7 +922,7 @@ func HandleDeleteUser(cc *hotline.ClientConn, t *hotline.Transaction) (res []hot
 
 	if err := cc.Server.AccountManager.Delete(login); err != nil {
 		cc.Logger.Error("Error deleting account", "Err", err)
-		return res
+		return cc.NewErrReply(t, "The account could not be deleted.")
 	}
 
 	for _, client := range cc.Server.ClientMgr.List() {
